@@ -96,3 +96,48 @@ def me_from(fields):
     if n != 56:
         raise ValueError("ME/MB must be 56 bits, got %d" % n)
     return v
+
+
+# ---------------------------------------------------------------------------- frames whose parity field repeats digits of the data part
+def affine_solve(f, nbits):
+    """f: an affine map over GF(2) of an nbits-bit integer (any output width).  Returns an x with f(x) == 0, or None."""
+    c = f(0)
+    rows = []   # (vector, combination) pairs in echelon form
+    for i in range(nbits):
+        v, comb = f(1 << i) ^ c, 1 << i
+        for (rv, rc) in rows:
+            if v ^ rv < v:
+                v, comb = v ^ rv, comb ^ rc
+        if v:
+            rows.append((v, comb))
+            rows.sort(reverse=True)
+    x, t = 0, c
+    for (rv, rc) in rows:
+        if t ^ rv < t:
+            t, x = t ^ rv, x ^ rc
+    return x if t == 0 and f(x) == 0 else None
+
+
+def df11_pi_repeats(ca, code, k):
+    """an all-call reply (AA chosen for the purpose) whose six PI hex digits are the same as its hex digits k..k+5 (k = 0, 1, 2); None if there is none"""
+    def f(aa):
+        v = df11(aa, ca, code)
+        return (v & 0xFFFFFF) ^ ((v >> (56 - 4 * (k + 6))) & 0xFFFFFF)
+    aa = affine_solve(f, 24)
+    return None if aa is None else (aa, df11(aa, ca, code))
+
+
+def commb_ap_repeats(df, mb, head27, k):
+    """a Comm-B reply (address chosen for the purpose) whose six AP hex digits are the same as its hex digits k..k+5 (8 <= k <= 16: inside MB)"""
+    v0 = commb(df, 0, mb, head27)
+    target = (v0 >> (112 - 4 * (k + 6))) & 0xFFFFFF
+    addr = (v0 & 0xFFFFFF) ^ target
+    return addr, commb(df, addr, mb, head27)
+
+
+def raw_ap_repeats(df, body, nbits, k):
+    """an AP-format reply (address chosen for the purpose) whose six AP hex digits are the same as its hex digits k..k+5 of the data part"""
+    v0 = raw(df, body, nbits, 0)
+    k = k % (nbits // 4 - 11)
+    target = (v0 >> (nbits - 4 * (k + 6))) & 0xFFFFFF
+    return raw(df, body, nbits, (v0 & 0xFFFFFF) ^ target)
